@@ -13,6 +13,7 @@ from concurrent.futures import ThreadPoolExecutor
 import gen_sem
 import vlib
 import scope_corr
+import rules_corr
 from vlib import hexs
 
 NEED_BIN = True
@@ -25,15 +26,20 @@ MANIFEST_ENTRY = {
             "permutation of the declarations it was given, and fails with P0020 when two types or two POUs share a name (never "
             "collapses them); a declaration that fails a rule against the name table keeps the verdict false wherever it stands; a "
             "unit that uses an undeclared variable fails the declared-variable rule in any company and at any position (the scope-"
-            "stack model: no companion hides it, none declaring the name elsewhere cures it). "
-            "That each implemented rule has the table shape is tied by search: each fault kind is placed at every position among "
+            "stack model: no companion hides it, none declaring the name elsewhere cures it); for the rules on declarations, "
+            "invocations and configurations (models of the rule modules, each compared with its module on the facts of the resolved "
+            "library): the diagnostics of the per-declaration rules (P0017, P0011, P0029) are those of the parts, in order; a "
+            "constant without value, a non-constant external of a constant global and a unit with a bad invocation are reported "
+            "whatever accompanies them. "
+            "For the whole pipeline this is tied by search: each fault kind is placed at every position among "
             "valid companions, in every file order, with and without companions reusing its name.",
-    "note": "Trusted: Coq kernel, extraction + driver, harness ops project / analyze, the ironplcc binary runner. The rule visitors "
-            "themselves are not modelled one by one (see C02). No axioms.",
+    "note": "Trusted: Coq kernel, extraction + driver, harness ops project / analyze / facts, the ironplcc binary runner. The late-bound "
+            "transformations (undeclared types) are not modelled. No axioms.",
 }
 TRUSTED = [
     "Coq 8.16.1 kernel; vm_compute only in the Examples",
     "no axioms: every theorem of Properties/C03.v is closed under the global context",
+    "the rule modules are modelled by hand on the facts the harness extracts with the library's own traversal (Model/Rules.v), validated by correspondence with each module run alone",
     "project.rs::semantic and the re-assembly of xform_toposort_declarations.rs are modelled by hand, validated by correspondence",
     "tools/gen_sem.py provides the faulty declarations and valid companions",
 ]
@@ -158,6 +164,8 @@ def search(run, info):
     # the scope walk of the declared-variable rule against its Coq model, on a sample of the file sets
     step = max(1, len(cases) // (400 if run.tier == "quick" else 4000))
     sc_n, sc_bad = scope_corr.check(run, [[(f[0], bytes.fromhex(f[1]).decode("utf-8")) for f in c["files"]] for c in cases[::step]], info, "c03")
+    # ... and the other rule visitors against their Coq models (facts of the resolved library), on the same sample
+    rl_n, rl_bad = rules_corr.check(run, [[(f[0], bytes.fromhex(f[1]).decode("utf-8")) for f in c["files"]] for c in cases[::step]], info, "c03")
     tab = {}
     for i, ((code, what, fl, layout), r) in enumerate(zip(meta, res)):
         run.count((code, tuple(fl)), True, "%s:%s" % (code, layout))
